@@ -11,6 +11,7 @@ class CacheProp(Prop):
     quick_n = 250
     thorough_n = 6000
     profiles = None
+    shape_tie = True
     trusted = [
         "atomicity of the machine's steps (each = one critical section / channel operation / callback of cache.go, "
         "store.go, ttl.go, policy.go) is established by reading the code and by this correspondence, not by proof",
